@@ -563,7 +563,7 @@ def progress_tie(ctx, C, E):
         return dict(f.split('=', 1) for f in reply.split()[1:]) if reply.startswith('ok ') else {'reply': reply}
     commas = lambda l: ','.join(map(str, l)) or '-'
     # 1. enabled sets at sampled steps of random walks
-    for i in range(ctx.scale(40, 600)):
+    for i in range(ctx.scale(25, 600)):
         progs = gen_programs(rng)
         rec = []
         bias = rng.random()
@@ -592,8 +592,12 @@ def progress_tie(ctx, C, E):
     # 2. drains: thread 1 queues n packets, then the networking thread alone for 11n+2 actions (the bound of
     # C12Progress.nt_drains printed by the model), then thread 2 disconnects: everything queued is on the wire
     caps = [(300, 50), (1, 50), (1, 1), (2, 3)]
-    for capw, capr in (caps if (ctx.thorough or ctx.searching) else [caps[0], rng.choice(caps[1:])]):
-        for n in range(1, 6):
+    if ctx.thorough or ctx.searching:
+        drains = [(c, n) for c in caps for n in range(1, 6)]
+    else:
+        drains = [(caps[0], n) for n in range(1, 6)] + [(rng.choice(caps[1:]), rng.randint(1, 5)) for _ in range(3)]
+    for (capw, capr), n in drains:
+        if True:
             progs = [[('q', k) for k in range(1, n + 1)], [('d', 0)]]
             B = 11 * n + 2
             st = {'k': 0, 'start': None, 'at': None, 'blocked': False}
